@@ -237,6 +237,11 @@ int main(int argc, char **argv)
 		break;
 	}
 	case OP_UNPACK:
+		/* the directory we unpack is the root of what gets created:
+		   paths below it are relative to it, it has no name of its own */
+		if (S_ISDIR(n->inode->base.mode))
+			n->name[0] = '\0';
+
 		if (tree_sort(n))
 			goto out;
 
